@@ -1507,11 +1507,22 @@ sf_command	(SNDFILE *sndfile, int command, void *data, int datasize)
 			latency = *((double *) data) ;
 			return sf_command (sndfile, SFC_SET_OGG_PAGE_LATENCY, &latency, sizeof (latency)) ;
 
-		default :
-			/* Must be a file specific command. Pass it on. */
+		case SFC_WAVEX_SET_AMBISONIC :
+		case SFC_WAVEX_GET_AMBISONIC :
+		case SFC_RF64_AUTO_DOWNGRADE :
+		case SFC_SET_COMPRESSION_LEVEL :
+		case SFC_SET_BITRATE_MODE :
+		case SFC_GET_BITRATE_MODE :
+		case SFC_SET_OGG_PAGE_LATENCY :
+		case SFC_GET_OGG_STREAM_SERIALNO :
+		case SFC_SET_ORIGINAL_SAMPLERATE :
+		case SFC_GET_ORIGINAL_SAMPLERATE :
+			/* A file specific command. Pass it on. */
 			if (psf->command)
 				return psf->command (psf, command, data, datasize) ;
+			/* Falls through. */
 
+		default :
 			psf_log_printf (psf, "*** sf_command : cmd = 0x%X\n", command) ;
 			return (psf->error = SFE_BAD_COMMAND_PARAM) ;
 		} ;
